@@ -1,13 +1,13 @@
 CONSTANTS
   Ext <- AllExtensions
   Conv = "bundled"
-  Defects = FALSE
+  Defects = TRUE
   Mode = "bfs"
-  Kernel = "switch"
+  Kernel = "defect"
   MaxBlocks = 4
-  MaxItems = 1
+  MaxItems = 2
   MaxComps = 2
 INIT Init
 NEXT Next
-INVARIANTS InvConsistent InvValidRefs InvValidity Emit
+INVARIANTS InvConsistent InvValidity Emit
 CHECK_DEADLOCK FALSE
